@@ -27,9 +27,9 @@ type ecoDef struct {
 }
 
 var ecos = []ecoDef{
-	{"npm", 0, resolve.NPM, []string{"0.0.1", "0.5.0", "1.0.0-alpha", "1.0.0-alpha.1", "1.0.0", "1.0.1", "1.1.0", "2.0.0-rc.1", "2.0.0", "10.0.0", "10.1.0"}, []string{"1.0", "v1.0.0", "2", "1.0.0+build"}},
-	{"Maven", 1, resolve.Maven, []string{"0.1", "1.0-alpha", "1.0-beta-2", "1.0-rc1", "1.0", "1.0.1", "1.1", "2.0-SNAPSHOT", "2.0", "10.0", "10.1"}, []string{"1", "1.0.0", "1.0-ga", "2.0.0"}},
-	{"PyPI", 2, resolve.PyPI, []string{"0.1", "1.0.dev1", "1.0a1", "1.0rc1", "1.0", "1.0.post1", "1.1", "2.0b2", "2.0", "10.0", "10.1"}, []string{"1.0.0", "1", "2.0.0", "1.0-post1"}},
+	{"npm", 0, resolve.NPM, []string{"0.0.0-alpha.1", "0.0.1", "0.5.0", "1.0.0-alpha", "1.0.0-alpha.1", "1.0.0", "1.0.1", "1.1.0", "2.0.0-rc.1", "2.0.0", "10.0.0", "10.1.0"}, []string{"1.0", "v1.0.0", "2", "1.0.0+build"}},
+	{"Maven", 1, resolve.Maven, []string{"0-alpha-1", "0.1", "1.0-alpha", "1.0-beta-2", "1.0-rc1", "1.0", "1.0.1", "1.1", "2.0-SNAPSHOT", "2.0", "10.0", "10.1"}, []string{"1", "1.0.0", "1.0-ga", "2.0.0"}},
+	{"PyPI", 2, resolve.PyPI, []string{"0.dev1", "0.1", "1.0.dev1", "1.0a1", "1.0rc1", "1.0", "1.0.post1", "1.1", "2.0b2", "2.0", "10.0", "10.1"}, []string{"1.0.0", "1", "2.0.0", "1.0-post1"}},
 }
 
 const (
